@@ -111,7 +111,7 @@ theorem filtV_skel (c : Ctx) (t : TagInfo) (a : Bool) : (v v' : V) → filtV c t
   | .iface v, v', h => by
     simp only [filtV] at h
     obtain ⟨w, hw, rfl⟩ := map_some h
-    simp only [skel, filtIface_skel c t v w hw]
+    simp only [skel, filtIface_skel c t a v w hw]
   | .struct fs, v', h => by
     simp only [filtV] at h
     obtain ⟨w, hw, rfl⟩ := map_some h
@@ -126,7 +126,7 @@ theorem filtV_skel (c : Ctx) (t : TagInfo) (a : Bool) : (v v' : V) → filtV c t
     simp only [skel, filtEntries_skel c es w hw]
 termination_by structural x _ _ => x
 
-theorem filtIface_skel (c : Ctx) (t : TagInfo) : (v v' : V) → filtIface c t v = some v' → skel v' = skel v
+theorem filtIface_skel (c : Ctx) (t : TagInfo) (a : Bool) : (v v' : V) → filtIface c t a v = some v' → skel v' = skel v
   | .ptr v, v', h => by
     simp only [filtIface] at h
     obtain ⟨w, hw, rfl⟩ := map_some h
@@ -138,7 +138,7 @@ theorem filtIface_skel (c : Ctx) (t : TagInfo) : (v v' : V) → filtIface c t v 
   | .struct fs, v', h => by
     simp only [filtIface] at h
     obtain ⟨w, hw, rfl⟩ := map_some h
-    simp only [skel, filtFields_skel c false fs w hw]
+    simp only [skel, filtFields_skel c a fs w hw]
   | .leaves ls, v', h => by
     simp only [filtIface] at h
     obtain ⟨l', hl, rfl⟩ := map_some h
@@ -419,14 +419,14 @@ def guardedV (c : Ctx) (t : TagInfo) (addr : Bool) : V → Bool
   | .leaves ls => ls.all cleanLeaf || protects t
   | .nilPtr => true
   | .ptr v => guardedV c t true v
-  | .iface v => guardedIface c t v
+  | .iface v => guardedIface c t addr v
   | .struct fs => guardedFields c addr fs
   | .slice vs => guardedElems c vs
   | .map es => guardedEntries c es
-def guardedIface (c : Ctx) (t : TagInfo) : V → Bool
+def guardedIface (c : Ctx) (t : TagInfo) (addr : Bool) : V → Bool
   | .ptr v => guardedV c t true v
-  | .leaf l => cleanLeaf l
-  | .struct fs => guardedFields c false fs
+  | .leaf l => cleanLeaf l || (protects t && addr)
+  | .struct fs => guardedFields c addr fs
   | .leaves ls => ls.all cleanLeaf || protects t
   | .slice vs => guardedElems c vs
   | .map es => guardedEntries c es
@@ -607,7 +607,7 @@ theorem filtV_clean (c : Ctx) (t : TagInfo) (a : Bool) : (v v' : V) → filtV c 
     simp only [filtV] at h
     obtain ⟨x, hx, rfl⟩ := map_some h
     simp only [guardedV] at g
-    simp only [plains, filtIface_clean c t v x hx g]
+    simp only [plains, filtIface_clean c t a v x hx g]
   | .struct fs, v', h, g => by
     simp only [filtV] at h
     obtain ⟨x, hx, rfl⟩ := map_some h
@@ -624,7 +624,7 @@ theorem filtV_clean (c : Ctx) (t : TagInfo) (a : Bool) : (v v' : V) → filtV c 
     simp only [guardedV] at g
     simp only [plains, filtEntries_clean c es x hx g]
 termination_by structural x _ _ _ => x
-theorem filtIface_clean (c : Ctx) (t : TagInfo) : (v v' : V) → filtIface c t v = some v' → guardedIface c t v = true → plains v' = []
+theorem filtIface_clean (c : Ctx) (t : TagInfo) (a : Bool) : (v v' : V) → filtIface c t a v = some v' → guardedIface c t a v = true → plains v' = []
   | .ptr v, v', h, g => by
     simp only [filtIface] at h
     obtain ⟨x, hx, rfl⟩ := map_some h
@@ -633,14 +633,16 @@ theorem filtIface_clean (c : Ctx) (t : TagInfo) : (v v' : V) → filtIface c t v
   | .leaf l, v', h, g => by
     simp only [filtIface] at h
     obtain ⟨l', hl, rfl⟩ := map_some h
-    simp only [guardedIface] at g
+    simp only [guardedIface, Bool.or_eq_true, Bool.and_eq_true] at g
     simp only [plains]
-    exact filterStr_clean hl (Or.inl (cleanLeaf_iff.mp g))
+    rcases g with g | ⟨g1, g2⟩
+    · exact filterStr_clean hl (Or.inl (cleanLeaf_iff.mp g))
+    · exact filterStr_clean hl (Or.inr ⟨by simpa [protects] using g1, g2⟩)
   | .struct fs, v', h, g => by
     simp only [filtIface] at h
     obtain ⟨x, hx, rfl⟩ := map_some h
     simp only [guardedIface] at g
-    simp only [plains, filtFields_clean c false fs x hx g]
+    simp only [plains, filtFields_clean c a fs x hx g]
   | .leaves ls, v', h, g => by
     simp only [filtIface] at h
     obtain ⟨l', hl, rfl⟩ := map_some h
